@@ -42,7 +42,9 @@ CHECKS = {
         technique="explicit-state BFS over the real InjectionTracker (deepcopy successors, canonical state hashing, deviation bound)",
         text="Every history of {send next, skip ahead, re-send/out-of-order, inject} up to depth 8 (quick) / 10 (thorough) with "
              "tracker windows 1..3 is executed on the real InjectionTracker; after every step all translation laws are evaluated for "
-             "every ID in range. Bounded exhaustive: the right level for a pure-data state machine whose bugs are 2-3 events deep.",
+             "every ID in range. A second search drives a real ProxiedCircuit (send / drop_message / take + re-inject, first sight flagged RESENT) to depth 6 "
+             "(quick) / 7 and evaluates the same laws on the packet ids of the captured datagrams. Bounded exhaustive: the right level for a small state "
+             "machine whose bugs are 2-4 events deep.",
         note="IDs older than an injection that aged out of the window are out of scope (bounded memory); packet-ID wrap-around excluded; "
              "production window is 10000, harness uses 1..3 to reach eviction."),
     "C12": dict(
